@@ -302,6 +302,50 @@ def run(ck, P):
     okd = okd and all(has(X.facts(ms, e), "stop") and has(X.facts(ms, e), "t->type", False) for e in fc) and all(_precedes(ms, fc[0], r) for r in rm)
     ck.ob("C02.8-DISCARD-ON-STOP", ms.site("drain before removal"), okd, "flush(NULL key) for the PS source precedes its removal: %s" % okd,
           witness=[("del_event", ms.unit, ms.name, e.block.id, e.idx) for e in fc])
+    # every path that removes the PS source on stop has drained the pipe first, whatever the module's state
+    badp = None
+    npaths = 0
+    for path in ms.paths(loop_fragments=True):
+        evs = list(rules.path_events(ms, path))
+        rme = [e for e in evs if e in rm]
+        if not rme:
+            continue
+        a = rules.path_assumes(path)
+        if a.get("t->type") is False or a.get("(t->type == 0)") is True:
+            npaths += 1
+            fce = [e for e in evs if e in fc]
+            if not fce or evs.index(fce[0]) > evs.index(rme[0]):
+                badp = path
+    ck.ob("C02.8-DISCARD-ON-STOP", ms.site("drain on every stop path"), badp is None and npaths > 0,
+          "%d path(s) removing the pubsub source all drain the pipe first" % npaths if badp is None else
+          "the pubsub source is removed on stop without draining the pipe on this path (e.g. for a PAUSED module): queued messages, their payloads and the "
+          "senders they pin are never released", path=rules.fmt_path(ms, badp) if badp else None)
+    # one fate per message read from the pipe: wrapped into an enqueued event XOR released
+    reads = [e for e in fl.calls("read")]
+    mmv = None
+    if reads:
+        a1 = strip(reads[0].args[1])
+        mmv = S(a1["e"]) if a1["k"] == "un" and a1["op"] == "&" else None
+    ck.need(mmv is not None, "flush_pubsub_msgs no longer reads messages from the pipe")
+    badf = None
+    nf = 0
+    for path in fl.paths(loop_fragments=True):
+        evs = list(rules.path_events(fl, path))
+        if not any(e in reads for e in evs) or path[-1][0] == fl.exit:
+            continue
+        a = rules.path_assumes(path)
+        if not any(k.startswith("(read(") and v is True for k, v in a.items()):
+            continue
+        nf += 1
+        after = evs[max(evs.index(e) for e in reads if e in evs):]
+        enq_ = [e for e in after if e.kind == "call" and e.callee == "m_queue_enqueue"]
+        unr_ = [e for e in after if e.kind == "call" and e.callee in ("m_mem_unref", "m_mem_unrefp") and S(e.args[0]).lstrip("&") == mmv]
+        if (enq_ and unr_) or (not enq_ and len(unr_) != 1):
+            badf = (len(enq_), len(unr_), path)
+    ck.ob("C02.6-FLUSH-AT-STOP", fl.site("message wrapped XOR released"), badf is None and nf > 0,
+          "%d iteration path(s): a message read from the pipe is either handed to an enqueued event or released, never both" % nf if badf is None else
+          "an iteration enqueues the message for delivery %d time(s) and releases it %d time(s): the handler receives a destroyed message / it is released twice"
+          % (badf[0], badf[1]), path=rules.fmt_path(fl, badf[2]) if badf else None)
     enq = [e for e in fl.calls("m_queue_enqueue")]
     okn = bool(enq) and all(has(X.facts(fl, e), "stopping_mod", False) or has(X.facts(fl, e), "key") for e in enq)
     sd = [e for e in fl.events() if e.kind == "decl" and e.e.get("name") == "stopping_mod"]
